@@ -37,7 +37,9 @@ ASSUMPTIONS = [
     "a falsy pattern counts as absent, as everywhere in the library",
 ]
 
-SAFE = "abAB01 .-_:/#?=&'(){}[]|\\^$*+é~@!,;%ß日😀𝔤"
+# (U+0301 after a base letter, U+212B ANGSTROM SIGN, U+2126 OHM SIGN and U+1100 / U+1161 conjoining jamo are changed by NFC
+#  normalisation: what is written must come back as written - seed C14-R)
+SAFE = "abAB01 .-_:/#?=&'(){}[]|\\^$*+é~@!,;%ß日😀𝔤e\u0301\u212b\u2126\u1100\u1161"
 WILD = SAFE + "\"<>\n\t\r  \x00\x7f😀"
 
 
